@@ -371,6 +371,12 @@ class Gen:
         first = "{" + name + "}"
         if name == "admonition":
             first += " A title"
+        if name == "container":
+            first += " dirc"
+        if name == "topic":
+            first += " A topic title"
+        if name == "class":
+            first += " cls-x cls-y"  # docutils' class directive: returns its body nodes themselves (no wrapping node)
         if style.startswith("colon"):
             head += [":class: c1"] + ([":name: nm-%d-%d" % (self.n, self.r.randint(0, 99999))] if named else []) + ([":nosuchoption: 1"] if style.endswith("-bad") else [])
         elif style.startswith("dash"):
